@@ -771,7 +771,12 @@ class EvalMixin:
                         if fk == "classmethod":
                             return [Res(st, SV("bound", f, x=obj))]
                         return [Res(st, f)]
-                    return [Res(st, self.class_attr(st, p, c, attr, n))]
+                    cav = self.class_attr(st, p, c, attr, n)
+                    if cav.k == "func" and isinstance(cav.t, ast.FunctionDef) and cav.x.get("cls") and isinstance(n.value, ast.Name) \
+                            and self.func_kind(cav.t) == "classmethod":
+                        # `alias = classmethod_name` in the class body, looked up on the class: bound to the class
+                        return [Res(st, SV("bound", cav, x=obj))]
+                    return [Res(st, cav)]
             if obj.h in ("Exception", "PClass") and attr in ("__init__", "__new__"):
                 return [Res(st, SV("builtin", obj.h + "." + attr))]
             raise Unsupported("class attribute %s.%s" % (obj.h, attr))
